@@ -21,6 +21,10 @@
  *                             are on the socket: nobody was inside a blocking wait yet), and, if q, until something is in
  *                             the incoming queue (dbus_connection_get_dispatch_status == DATA_REMAINS: some other thread
  *                             has started reading, i.e. a W thread's call, written before it reads, is on the socket too)
+ *     M<mode>,<us>            re-register the timeout functions for the harness's next main-loop context (see tm_register):
+ *                             mode 0 same function pointers / other data, 1 other function pointers, 2 NULL functions,
+ *                             <us> without a main loop, then the functions again; logs "rereg" with b = timeouts that
+ *                             were registered, m = [lost (in no context afterwards), left in another context, duplicated]
  *     C<max_ms>               reply-then-close cases: without reading, wait (poll() on the connection's fd, as a main loop
  *                             would) until the peer's hangup is pending on the socket - the stream is ordered, so
  *                             whatever the peer wrote before closing is in the socket buffer by then; logs "chk" with
@@ -90,7 +94,7 @@ typedef struct
   long t_us;
 } Ev;
 
-typedef struct { DBusTimeout *t; long long due; int enabled; int firing; } TSlot;
+typedef struct { DBusTimeout *t; long long due; int enabled; int firing; int ctx; } TSlot;
 
 static DBusConnection *conn;
 static Call calls[MAX_CALLS];
@@ -157,6 +161,15 @@ ev_reply (Ev *e, DBusMessage *m)
 
 /* ------------------------------------------------------------------ the application's timer duty */
 
+/* The harness's main loop has several "contexts" (think GMainContext): one timer table, every entry belongs to the
+ * context whose id libdbus passed as callback data when it handed the timeout over.  Only the context libdbus was
+ * last given (cur_ctx) is run: timers are fired from it alone.  Op M moves the connection to another context by
+ * calling dbus_connection_set_timeout_functions again. */
+#define N_CTX 3
+static int ctx_ids[N_CTX] = { 0, 1, 2 };
+static _Atomic int cur_ctx;         /* -1 while the timeout functions are NULL */
+static int cur_alt;                 /* which of the two sets of callback functions is registered */
+
 static dbus_bool_t
 tm_add (DBusTimeout *t, void *data)
 {
@@ -167,6 +180,7 @@ tm_add (DBusTimeout *t, void *data)
     if (tslots[i].t == NULL)
       {
         tslots[i].t = t;
+        tslots[i].ctx = data ? *(int *) data : 0;
         tslots[i].enabled = dbus_timeout_get_enabled (t);
         tslots[i].due = now_us () + 1000LL * dbus_timeout_get_interval (t);
         tslots[i].firing = 0;
@@ -182,8 +196,9 @@ tm_remove (DBusTimeout *t, void *data)
 {
   int i, found = 0;
   pthread_mutex_lock (&tm_mu);
+  int ctx = data ? *(int *) data : 0;
   for (i = 0; i < MAX_TIMEOUTS; i++)
-    if (tslots[i].t == t) { tslots[i].t = NULL; found = 1; }
+    if (tslots[i].t == t && tslots[i].ctx == ctx) { tslots[i].t = NULL; found = 1; }
   pthread_mutex_unlock (&tm_mu);
   if (!found) atomic_fetch_add (&n_timer_lost, 1);
 }
@@ -194,7 +209,7 @@ tm_toggled (DBusTimeout *t, void *data)
   int i;
   pthread_mutex_lock (&tm_mu);
   for (i = 0; i < MAX_TIMEOUTS; i++)
-    if (tslots[i].t == t)
+    if (tslots[i].t == t && tslots[i].ctx == (data ? *(int *) data : 0))
       {
         tslots[i].enabled = dbus_timeout_get_enabled (t);
         tslots[i].due = now_us () + 1000LL * dbus_timeout_get_interval (t);
@@ -208,7 +223,7 @@ tm_count_short (void)
   int i, n = 0;
   pthread_mutex_lock (&tm_mu);
   for (i = 0; i < MAX_TIMEOUTS; i++)
-    if (tslots[i].t != NULL && dbus_timeout_get_interval (tslots[i].t) < FINITE_LIMIT) n++;
+    if (tslots[i].t != NULL && tslots[i].ctx == atomic_load (&cur_ctx) && dbus_timeout_get_interval (tslots[i].t) < FINITE_LIMIT) n++;
   pthread_mutex_unlock (&tm_mu);
   return n;
 }
@@ -219,9 +234,40 @@ tm_count (void)
   int i, n = 0;
   pthread_mutex_lock (&tm_mu);
   for (i = 0; i < MAX_TIMEOUTS; i++)
-    if (tslots[i].t != NULL) n++;
+    if (tslots[i].t != NULL && tslots[i].ctx == atomic_load (&cur_ctx)) n++;
   pthread_mutex_unlock (&tm_mu);
   return n;
+}
+
+/* the same callbacks under other addresses: re-registration with DIFFERENT function pointers */
+static dbus_bool_t tm_add_alt (DBusTimeout *t, void *data) { return tm_add (t, data); }
+static void tm_remove_alt (DBusTimeout *t, void *data) { tm_remove (t, data); }
+static void tm_toggled_alt (DBusTimeout *t, void *data) { tm_toggled (t, data); }
+
+static dbus_bool_t
+tm_register (int alt, int ctx)
+{
+  dbus_bool_t ok;
+  if (ctx < 0)
+    ok = dbus_connection_set_timeout_functions (conn, NULL, NULL, NULL, NULL, NULL);
+  else if (alt)
+    ok = dbus_connection_set_timeout_functions (conn, tm_add_alt, tm_remove_alt, tm_toggled_alt, &ctx_ids[ctx], NULL);
+  else
+    ok = dbus_connection_set_timeout_functions (conn, tm_add, tm_remove, tm_toggled, &ctx_ids[ctx], NULL);
+  if (ok) { atomic_store (&cur_ctx, ctx); if (ctx >= 0) cur_alt = alt; }
+  return ok;
+}
+
+/* how often is timeout t registered in context ctx / in any other context */
+static void
+tm_where (DBusTimeout *t, int ctx, int *in_ctx, int *elsewhere)
+{
+  int i;
+  *in_ctx = *elsewhere = 0;
+  pthread_mutex_lock (&tm_mu);
+  for (i = 0; i < MAX_TIMEOUTS; i++)
+    if (tslots[i].t == t) { if (tslots[i].ctx == ctx) (*in_ctx)++; else (*elsewhere)++; }
+  pthread_mutex_unlock (&tm_mu);
 }
 
 /* Fire every enabled timeout whose interval has elapsed.  The list lock is NOT held across
@@ -235,14 +281,15 @@ tm_fire_due (void)
   for (i = 0; i < MAX_TIMEOUTS; i++)
     {
       DBusTimeout *t = tslots[i].t;
-      if (t != NULL && tslots[i].enabled && !tslots[i].firing && tslots[i].due <= now_us ())
+      int ctx = tslots[i].ctx;
+      if (t != NULL && ctx == atomic_load (&cur_ctx) && tslots[i].enabled && !tslots[i].firing && tslots[i].due <= now_us ())
         {
           tslots[i].firing = 1;
           pthread_mutex_unlock (&tm_mu);
           dbus_timeout_handle (t);
           fired++;
           pthread_mutex_lock (&tm_mu);
-          if (tslots[i].t == t)
+          if (tslots[i].t == t && tslots[i].ctx == ctx)
             {
               tslots[i].firing = 0;
               tslots[i].due = now_us () + 1000LL * dbus_timeout_get_interval (t);
@@ -516,6 +563,43 @@ exec_op (const Op *o)
           }
         break;
       }
+    case 'M':
+      {
+        /* move the connection to the next main-loop context.  a: 0 same callback functions, 1 the other set of
+         * functions, 2 functions set to NULL first (b us without a main loop), then the same set again.
+         * Invariant checked on the spot: every timeout that was registered in the old context is afterwards
+         * registered exactly once in the new one and nowhere else. */
+        DBusTimeout *snap[MAX_TIMEOUTS];
+        int n_snap = 0, i, old = atomic_load (&cur_ctx), nw, lost = 0, stale = 0, dup = 0, null_left = 0;
+        dbus_bool_t ok = TRUE;
+        pthread_mutex_lock (&tm_mu);
+        for (i = 0; i < MAX_TIMEOUTS; i++)
+          if (tslots[i].t != NULL && tslots[i].ctx == old) snap[n_snap++] = tslots[i].t;
+        pthread_mutex_unlock (&tm_mu);
+        nw = (old + 1) % N_CTX;
+        if (o->a == 2)
+          {
+            ok = tm_register (cur_alt, -1);
+            for (i = 0; i < n_snap; i++)
+              { int a, b; tm_where (snap[i], -1, &a, &b); null_left += b; }
+            if (o->b > 0) usleep ((useconds_t) o->b);
+            ok = tm_register (cur_alt, nw) && ok;
+          }
+        else
+          ok = tm_register (o->a == 1 ? !cur_alt : cur_alt, nw);
+        for (i = 0; i < n_snap; i++)
+          {
+            int a, b;
+            tm_where (snap[i], nw, &a, &b);
+            if (a == 0 && b == 0) lost++;
+            if (b > 0) stale++;
+            if (a > 1) dup++;
+          }
+        e = ev_new ("rereg", -1);
+        e->a = o->a; e->b = n_snap; e->rtype = 0; e->rs = ok ? 1 : 0;
+        e->m[0] = lost; e->m[1] = stale + null_left; e->m[2] = dup; e->nm = 3;
+        break;
+      }
     case 'C':
       {
         int fd = -1, hup = 0, avail = 0;
@@ -689,7 +773,7 @@ int main (int argc, char **argv)
           continue;
         }
       dbus_connection_set_exit_on_disconnect (conn, FALSE);
-      if (!dbus_connection_set_timeout_functions (conn, tm_add, tm_remove, tm_toggled, NULL, NULL)) return 3;
+      if (!tm_register (0, 0)) return 3;
       guard = 0;
       while (!dbus_connection_get_is_authenticated (conn) && dbus_connection_get_is_connected (conn) && guard++ < 2000)
         dbus_connection_read_write_dispatch (conn, 50);
